@@ -660,6 +660,19 @@ def judge(col, p, spec_desc, t, edit):
             col.violation('C09/verify-disagrees', 'Match(%s).verify(%s) returned %r, reference rejects' % (spec_desc, short(t), got_verify.value), wit)
         if not (got_default.ok and got_default.value is SENT):
             col.violation('C09/default-not-returned', 'Match(%s, default=) on %s = %r' % (spec_desc, short(t), got_default), wit)
+    # matches() and verify() are about the pattern: they agree with the outcome also on a Match object that carries a default= (which is
+    # what glom() returns instead of raising)
+    md = Match(pat, default=SENT)
+    d_matches, d_verify = call(md.matches, t), call(md.verify, t)
+    col.count('matches_and_verify_on_a_match_with_default')
+    if not (d_matches.ok and d_matches.value is (verdict == 'ok')):
+        col.violation('C09/matches-disagrees:on-a-Match-with-default', 'Match(%s, default=..).matches(%s) = %r, reference %s'
+                      % (spec_desc, short(t), d_matches, 'accepts' if verdict == 'ok' else 'rejects'), wit)
+    if verdict == 'ok' and not (d_verify.ok and got.ok and d_verify.value == got.value):
+        col.violation('C09/verify-disagrees:on-a-Match-with-default', 'Match(%s, default=..).verify(%s) = %r, reference accepts' % (spec_desc, short(t), d_verify), wit)
+    if verdict != 'ok' and (d_verify.ok or not isinstance(d_verify.exc, MatchError)):
+        col.violation('C09/verify-disagrees:on-a-Match-with-default', 'Match(%s, default=..).verify(%s): %r, reference rejects (verify raises MatchError when the '
+                      'target does not match)' % (spec_desc, short(t), d_verify), wit)
     if snapshot(t) != snap:
         col.violation('C09/target-modified', 'Match(%s) modified its target %s' % (spec_desc, short(t)), wit)
     col.count('snapshots_compared')
